@@ -1,5 +1,5 @@
 /-!
-# K6 — `escapecss` (serialize.py:13-27) and the tokenizer's `unicodesub` (tokenize2.py:30, 111-126)
+# K6 — `escapecss` (serialize.py:13-27) and the tokenizer's `unicodesub` / `stringsub` (tokenize2.py:30-37, 117-133, 218-240)
 
 * `escape rep text` — what `text.encode(enc, 'escapecss')` writes, seen before the inner codec turns characters
   into bytes: every character the encoding cannot represent (`rep c = false`) becomes
@@ -53,6 +53,7 @@ inductive St where
   | bs                                     -- a backslash has been read, nothing decided yet
   | hex (num k : Nat) (raw : List Nat)     -- inside `\[0-9a-fA-F]{1,6}`: value, digits so far, text matched so far
   | cr (num : Nat) (raw : List Nat)        -- the escape was ended by CR: a directly following LF belongs to it too
+  | cont                                   -- string mode: backslash CR read (a line continuation); a following LF belongs to it
 deriving DecidableEq, Repr, Inhabited
 
 /-- one character in state `norm` -/
@@ -65,12 +66,16 @@ def endHex (num : Nat) (raw : List Nat) (c : Nat) : St × List Nat :=
   else if c = 0x20 ∨ c = 0x09 ∨ c = 0x0A ∨ c = 0x0C then (.norm, repl num (raw ++ [c]))
   else ((stepNorm c).1, repl num raw ++ (stepNorm c).2)
 
-/-- one step of the scanner: new state and output -/
-def step (s : St) (c : Nat) : St × List Nat :=
+/-- one step of the scanner: new state and output. `str` = the pattern `stringsub` used for STRING, INVALID and URI
+tokens (`tokenize2.py:32-37,231-235`): a line continuation (backslash + CRLF / LF / CR / FF) is removed in the same pass;
+`str = false` is `unicodesub`, used for DIMENSION, IDENT, HASH, FUNCTION, UNICODE-RANGE. -/
+def step (str : Bool) (s : St) (c : Nat) : St × List Nat :=
   match s with
   | .norm => stepNorm c
   | .bs =>
     if c = 0x5C then (.norm, [0x5C, 0x5C])                      -- `\\` is a unit and stays
+    else if str && (c == 0x0A || c == 0x0C) then (.norm, [])   -- line continuation: removed
+    else if str && c == 0x0D then (.cont, [])
     else match hexVal? c with
       | some v => (.hex v 1 [0x5C, c], [])
       | none => (.norm, [0x5C, c])                              -- a simple escape stays as it is
@@ -81,6 +86,8 @@ def step (s : St) (c : Nat) : St × List Nat :=
   | .cr num raw =>
     if c = 0x0A then (.norm, repl num (raw ++ [0x0D, 0x0A]))
     else ((stepNorm c).1, repl num (raw ++ [0x0D]) ++ (stepNorm c).2)
+  | .cont =>
+    if c = 0x0A then (.norm, []) else stepNorm c
 
 /-- end of the text -/
 def flush : St → List Nat
@@ -88,21 +95,46 @@ def flush : St → List Nat
   | .bs => [0x5C]
   | .hex num _ raw => repl num raw
   | .cr num raw => repl num (raw ++ [0x0D])
+  | .cont => []
 
 /-- run the scanner from state `s` -/
-def run : St → List Nat → List Nat
+def run (str : Bool) : St → List Nat → List Nat
   | s, [] => flush s
-  | s, c :: t => (step s c).2 ++ run (step s c).1 t
+  | s, c :: t => (step str s c).2 ++ run str (step str s c).1 t
 
-/-- `Tokenizer.unicodesub(_repl, text)` -/
-def unescape (text : List Nat) : List Nat := run .norm text
+/-- `Tokenizer.unicodesub(_repl, text)`: the value of a DIMENSION, IDENT, HASH, FUNCTION, UNICODE-RANGE token -/
+def unescape (text : List Nat) : List Nat := run false .norm text
+
+/-- `Tokenizer.stringsub(_repl, text)`: the value of a STRING, INVALID, URI token -/
+def unescapeStr (text : List Nat) : List Nat := run true .norm text
 
 /-- the guard of the round-trip theorem, computed by the same scanner: no character that has to be escaped comes
 directly after a backslash that is itself not escaped (scanner state `bs`) -/
-def okFrom (rep : Nat → Bool) : St → List Nat → Bool
+def okFrom (rep : Nat → Bool) (str : Bool) : St → List Nat → Bool
   | _, [] => true
-  | s, c :: t => (rep c || !(s == .bs)) && okFrom rep (step s c).1 t
+  | s, c :: t => (rep c || !(s == .bs)) && okFrom rep str (step str s c).1 t
 
-def ok (rep : Nat → Bool) (text : List Nat) : Bool := okFrom rep .norm text
+def ok (rep : Nat → Bool) (text : List Nat) : Bool := okFrom rep false .norm text
+
+def okStr (rep : Nat → Bool) (text : List Nat) : Bool := okFrom rep true .norm text
+
+/-- how the tokenizer turns the text of a token into its value (`tokenize2.py:218-240`) -/
+inductive TokKind where
+  | name       -- DIMENSION, IDENT, HASH, FUNCTION, UNICODE-RANGE: `unicodesub`
+  | str        -- STRING, INVALID, URI: `stringsub`
+  | verbatim   -- COMMENT (since fix 975ab00), ATKEYWORD and every other token: the text as it is
+deriving DecidableEq, Repr, Inhabited
+
+/-- the value of a token of kind `k` with text `t` -/
+def reads : TokKind → List Nat → List Nat
+  | .name, t => unescape t
+  | .str, t => unescapeStr t
+  | .verbatim, t => t
+
+/-- when escaping for an encoding with representability `rep` keeps the value of a token of kind `k` -/
+def lossless (rep : Nat → Bool) : TokKind → List Nat → Bool
+  | .name, t => ok rep t
+  | .str, t => okStr rep t
+  | .verbatim, t => t.all rep          -- nothing may need an escape: there are no escapes in comments
 
 end CssVerif.EncEscape
